@@ -396,6 +396,10 @@ def run_unary(prop, tier, seed, replay):
                 models.append(engine.netsimplex_model(work, tier))
             if prop in ("C04", "C16"):
                 models.append(engine.position_model(work, tier))
+            if prop in ("C04", "C13"):
+                models.append(engine.nspos_model(work, tier))
+            if prop == "C04":
+                models.append(engine.netsimplex_h_model(work, tier))
             if prop == "C13":
                 models.append(engine.wmedian_model(work, tier, "trees"))
             if prop == "C12":
